@@ -180,4 +180,39 @@ Proof. intro Hk. rewrite <- conjugate_evaluation. f_equal.
   { rewrite (Nat.pow_succ_r' 2 m). nia. }
   rewrite E, (pw_add R rO rI radd rmul rsub ropp Rth w (2 * 2 ^ S m * (4 * k))), (pw_mul R rO rI radd rmul rsub ropp Rth w (2 * 2 ^ S m)).
   rewrite (w2N R rO rI radd rmul rsub ropp Rth m w wN), (pw_one R rO rI radd rmul rsub ropp Rth). ring. Qed.
+(* the point w^(4(M-k-1)+3) is s of the point w^(4k+1) *)
+Lemma conj_point k : (k < 2 ^ m)%nat -> pw (s w) (4 * k + 1) = pw w (4 * (2 ^ m - k - 1) + 3).
+Proof. intro Hk. rewrite s_w, <- (pw_mul R rO rI radd rmul rsub ropp Rth).
+  assert (E : ((2 * 2 ^ S m - 1) * (4 * k + 1) = 2 * 2 ^ S m * (4 * k) + (4 * (2 ^ m - k - 1) + 3))%nat).
+  { rewrite (Nat.pow_succ_r' 2 m). nia. }
+  rewrite E, (pw_add R rO rI radd rmul rsub ropp Rth w (2 * 2 ^ S m * (4 * k))), (pw_mul R rO rI radd rmul rsub ropp Rth w (2 * 2 ^ S m)).
+  rewrite (w2N R rO rI radd rmul rsub ropp Rth m w wN), (pw_one R rO rI radd rmul rsub ropp Rth). ring. Qed.
+
+Lemma sum_even_odd M g : sum (2 * M) g = sum M (fun k => g (2 * k)%nat) + sum M (fun k => g (2 * k + 1)%nat).
+Proof. induction M as [|M IH]; [cbn; ring|].
+  replace (2 * S M)%nat with (S (S (2 * M))) by lia. cbn [rsum]. rewrite IH.
+  replace (2 * M + 1)%nat with (S (2 * M)) by lia. ring. Qed.
+Lemma sum_rev n g : sum n g = sum n (fun k => g (n - 1 - k)%nat).
+Proof. induction n as [|n IH]; [reflexivity|].
+  rewrite (rsum_shift R rO rI radd rmul rsub ropp Rth n (fun k => g (S n - 1 - k)%nat)). cbn [rsum].
+  replace (S n - 1 - 0)%nat with n by lia. rewrite IH.
+  rewrite (rsum_ext R rO radd n (fun k => g (n - 1 - k)%nat) (fun i => g (S n - 1 - S i)%nat)) by (intros i Hi; f_equal; lia).
+  ring. Qed.
+
+(* C10: the inverse transform from the stored half alone: the sums over the M points w^(4k+1), plus their conjugate, give N times the coefficient *)
+Theorem inverse_from_half (f : vec) j : (j < 2 ^ S m)%nat ->
+  let H := sum (2 ^ m) (fun k => pw w ((4 * k + 1) * (2 * 2 ^ S m - j)) * evR (2 ^ S m) (pw w (4 * k + 1)) f) in
+  H + s H = Zr (Z.of_nat (2 ^ S m)) * Zr (f j).
+Proof. intros Hj H.
+  rewrite <- (inverse_transform R rO rI radd rmul rsub ropp Rth m w wN f j Hj).
+  rewrite (Nat.pow_succ_r' 2 m) at 1. rewrite sum_even_odd. f_equal.
+  - apply (rsum_ext R rO radd). intros k _. replace (2 * (2 * k) + 1)%nat with (4 * k + 1)%nat by lia. reflexivity.
+  - unfold H. rewrite s_sum, (sum_rev (2 ^ m) (fun k => pw w ((2 * (2 * k + 1) + 1) * (2 * 2 ^ S m - j)) * evR (2 ^ S m) (pw w (2 * (2 * k + 1) + 1)) f)).
+    apply (rsum_ext R rO radd). intros k Hk.
+    rewrite s_mul, s_pw, <- conjugate_evaluation, s_pw.
+    rewrite (Nat.mul_comm (4 * k + 1) (2 * 2 ^ S m - j)), (pw_mul R rO rI radd rmul rsub ropp Rth (s w)), <- (pw_mul R rO rI radd rmul rsub ropp Rth (s w) (2 * 2 ^ S m - j)).
+    rewrite (Nat.mul_comm (2 * 2 ^ S m - j) (4 * k + 1)), (pw_mul R rO rI radd rmul rsub ropp Rth (s w) (4 * k + 1)).
+    rewrite (conj_point k Hk).
+    replace (2 * (2 * (2 ^ m - 1 - k) + 1) + 1)%nat with (4 * (2 ^ m - k - 1) + 3)%nat by lia.
+    rewrite <- (pw_mul R rO rI radd rmul rsub ropp Rth w). reflexivity. Qed.
 End Conj.
